@@ -87,7 +87,8 @@ class SrcGen:
             else:
                 # D2: a temp target is written by one directive only
                 t = self.temps.pop(r.below(len(self.temps)))
-                if self.allow_errors and r.chance(1, 60): t = "bad.txtpp"
+                # the prescribed error: a temp target that has the shape of a source (either form) is refused
+                if self.allow_errors and r.chance(1, 30): t = r.choice(["bad.txtpp", "bad.txtpp.md", "helper.txtpp.txt"])
                 n = r.below(4)
                 args = [t] + [r.choice(["body", "  two", "", "é x", "TXTPP#run no"]) for _ in range(n)]
                 self.used_temps.append(t)
